@@ -9,6 +9,7 @@ import IsoVerif.Lemmas.Interval
 import IsoVerif.Lemmas.BinSearch
 import IsoVerif.Lemmas.Lists
 import IsoVerif.Lemmas.Jaccard
+import IsoVerif.Lemmas.Merge
 
 namespace IsoVerif.Props.C19Lists
 open IsoVerif.Gen IsoVerif.Model IsoVerif.Lemmas
@@ -50,6 +51,40 @@ theorem jaccard_sweep_eq (l1 l2 : List Iv) (h1 : SD l1) (h2 : SD l2) (w1 : WFl l
 
 example : SD [(1, 5), (10, 12)] ∧ jaccardSweep [(1, 5), (10, 12)] [(4, 11)] = some (4, 12) := by
   decide +kernel
+
+/-! ### merging -/
+
+/-- `merge_ranges` on sorted disjoint lists (not both empty) succeeds — neither assertion fires and the
+    accumulator is never indexed while empty — and the returned blocks cover exactly the union of the positions -/
+theorem merge_cov (l1 l2 : List Iv) (h1 : SD l1) (h2 : SD l2) (w1 : WFl l1) (w2 : WFl l2)
+    (hne : l1 ≠ [] ∨ l2 ≠ []) :
+    ∃ res, mergeRanges l1 l2 = some res ∧ ∀ p, cov res p ↔ cov l1 p ∨ cov l2 p := by
+  obtain ⟨acc, hacc, hcov⟩ := mergeLoop_spec l1 false l2 false [] h1 h2 w1 w2 (by simp) (by simp) (by simp)
+  have hne' : acc.isEmpty = false := by
+    cases hacc' : acc with
+    | cons x t => rfl
+    | nil =>
+      exfalso
+      subst hacc'
+      rcases hne with h | h
+      · cases l1 with
+        | nil => exact h rfl
+        | cons a t =>
+          have := (hcov a.1).mpr (Or.inr (Or.inl ⟨a, by simp, by omega, WFl_head w1⟩))
+          exact cov_nil _ this
+      · cases l2 with
+        | nil => exact h rfl
+        | cons a t =>
+          have := (hcov a.1).mpr (Or.inr (Or.inr ⟨a, by simp, by omega, WFl_head w2⟩))
+          exact cov_nil _ this
+  refine ⟨acc.reverse, by simp [mergeRanges, hacc, hne'], fun p => ?_⟩
+  rw [cov_reverse, hcov p]
+  simp [cov_nil]
+
+/-- both lists empty: the real code raises (assert len(union) != 0) -/
+theorem merge_empty : mergeRanges [] [] = none := by decide +kernel
+
+example : mergeRanges [(1, 5), (10, 12)] [(4, 11), (20, 21)] = some [(1, 12), (20, 21)] := by decide +kernel
 
 /-! ### prefix / suffix sums -/
 
